@@ -63,9 +63,15 @@ a: {b: L.p, c: L}`,
 	`a: {b!: int, c?: string, _h: 3, #d: 4}, e: a._h`,
 	`a: {b: =~"^a", c: b & "abc", d: !="x"}`,
 	`a: {b: {c: b2.d}, b2: {d: b3}, b3: 9}, z: a.b.c`,
+	// validators and builtins that take struct arguments (they copy the argument as data)
+	`a: {b: {x: 1, y: {z: 2}} & matchN(1, [{x: int, ...}, string]), c: matchN(>=1, [{x: 1, ...}, {y: {z: 2}, ...}]) & b}`,
+	`import "struct"
+a: {b: {x: 1, y: {z: 2}} & struct.MaxFields(3), c: b & struct.MinFields(1)}`,
+	`import "list"
+a: {b: [{x: 1}, {x: 2}], c: list.Contains(b, {x: 2}), d: list.Concat([b, [{x: 3}]])}`,
 }
 
-const c19NOps = 16
+const c19NOps = 19
 
 func digest(s string) string {
 	h := sha1.Sum([]byte(s))
@@ -136,6 +142,21 @@ func c19Apply(ctx *cue.Context, v cue.Value, op int) string {
 			return true
 		}, nil)
 		out = sb.String()
+	case 17:
+		// the shared value inside a Go container handed to FillPath
+		root := ctx.CompileString(`r: {}`)
+		f := root.FillPath(cue.ParsePath("r"), map[string]any{"k": v, "l": []any{a}})
+		out = fmt.Sprintf("%v|%v|%v|%v", f, f.Err(), v.Path(), a.Path())
+	case 18:
+		e := ctx.Encode(struct {
+			A cue.Value
+			B []cue.Value
+		}{v, []cue.Value{a, v}})
+		out = fmt.Sprintf("%v|%v|%v|%v", e, e.Err(), v.Path(), a.Path())
+	case 19:
+		e := ctx.Encode(map[string]any{"m": v, "n": map[string]cue.Value{"o": a}})
+		b, err := e.MarshalJSON()
+		out = fmt.Sprintf("%s|%v|%v|%v", b, err, v.Path(), a.Path())
 	}
 	return digest(out)
 }
@@ -538,7 +559,7 @@ func checkC19(r *kit.Run) {
 	r.Set("evaluations", calls)
 	r.Set("distinct_nontrivial", len(hist))
 	r.Set("canaries_rejected", caught)
-	r.Set("rule", "each TLC -simulate behaviour of SharedRuntime.tla (program, evaluated or not, 2..8 goroutines, interleaved Call/Return sequence of 40 calls over 16 methods) is executed under the race detector on one shared value (3 of 4) or with one context per goroutine (1 of 4); the recorded history is validated by TLC against SharedRuntimeTrace.tla; distinct_nontrivial = histories")
+	r.Set("rule", "each TLC -simulate behaviour of SharedRuntime.tla (program, evaluated or not, 2..8 goroutines, interleaved Call/Return sequence of 40 calls over 19 methods (incl. FillPath and Encode of Go containers that hold the shared value)) is executed under the race detector on one shared value (3 of 4) or with one context per goroutine (1 of 4); the recorded history is validated by TLC against SharedRuntimeTrace.tla; distinct_nontrivial = histories")
 }
 
 func raceKey(rep string) string {
